@@ -89,7 +89,16 @@ func (c *vfCtx) Fail(sig, format string, args ...any) {
 	c.findings = append(c.findings, vfFinding{Sig: sig, Msg: fmt.Sprintf(format, args...)})
 }
 
-func (c *vfCtx) Failed() bool { return len(c.findings) > 0 }
+// Failed reports whether an UNLISTED violation has been recorded (findings whose signature is a
+// listed known finding do not stop a check: the search goes on behind them).
+func (c *vfCtx) Failed() bool {
+	for _, f := range c.findings {
+		if !vfIsKnown(f.Sig) {
+			return true
+		}
+	}
+	return false
+}
 
 // ---------------------------------------------------------------------------------------------
 // Registry
